@@ -6,7 +6,7 @@
    line splices are modelled (Names/LexDefs.v) and tied by runs only; that every later pass looks only at tokens and ids is carried by
    the end-to-end rewrite runs of tools/props/c05.py. *)
 From Coq Require Import List NArith Bool.
-From CV Require Import Base.Bytes Names.Defs Names.VmProofs Names.LexDefs Names.LexProofs Names.LexProofs2.
+From CV Require Import Base.Bytes Names.Defs Names.VmProofs Names.LexDefs Names.LexProofs Names.LexProofs2 Names.ReorderProofs.
 Import ListNotations.
 Local Open Scope N_scope.
 
@@ -55,30 +55,35 @@ Proof. exact lex_render_needs_sep. Qed.
 Print Assumptions C05_lex_render_needs_sep_refuted.
 
 (* stage 2, maximal munch: the full raw lexer (readfile + combineOperators) returns, for every token list that may
-   also contain  == != <= >= += -= *= /= %= |= ^= || && :: ->  and every family of blank separators that keeps two
+   also contain  == != <= >= += -= *= /= %= |= ^= || && :: -> << >> ++ --  and every family of blank separators that keeps two
    names and two operators apart, exactly the tokens (the two characters read back as ONE token) at the positions
-   of the rewrite's location map. no_exp keeps `1e + 5` out (assembled whatever separates the parts). *)
+   of the rewrite's location map. no_exp keeps `1e + 5` out (assembled whatever separates the parts); ctx_ok states the
+   context rules of combineOperators: a shift is not followed by a lone `=` (it would be read as shift-assign whatever
+   separates them), `++`/`--` does not stand next to a number token (`1 ++ 2` stays `+ +`). *)
 Theorem C05_lex_render_munch_partial : forall toks ws,
   length ws = S (length toks) ->
   Forall (fun w => forallb is_blank w = true) ws ->
   forallb stok2_ok toks = true ->
   sep2_ok ws toks = true ->
   no_exp toks = true ->
+  ctx_ok false toks = true ->
   map tstr (lex (render2 ws toks)) = map stok2_str toks /\
   map (fun t => (tline t, tcol t)) (lex (render2 ws toks)) = positions2 ws toks 1 1.
 Proof.
-  intros toks ws H1 H2 H3 H4 H5. rewrite (lex_render_munch toks ws H1 H2 H3 H4 H5).
+  intros toks ws H1 H2 H3 H4 H5 H6. rewrite (lex_render_munch toks ws H1 H2 H3 H4 H5 H6).
   split; [apply merged_strs | apply merged_positions]; assumption.
 Qed.
 Print Assumptions C05_lex_render_munch_partial.
 
 Example C05_lex_render_munch_partial_inhabited :
-  let toks := [TName [97]; TOp2 60 61; TName [98]; TOp2 38 38; TOp 33; TName [99]; TOp2 45 62; TName [100]; TOp 59] in
-  let ws := [[]; [32]; []; [10; 9]; [32]; []; []; []; []; [10]] in
+  let toks := [TName [97]; TOp2 60 61; TName [98]; TOp2 38 38; TOp 33; TName [99]; TOp2 45 62; TName [100]; TOp2 60 60;
+               TName [49]; TOp 59; TName [105]; TOp2 43 43; TOp 59] in
+  let ws := [[]; [32]; []; [10; 9]; [32]; []; []; []; []; []; []; [10]; []; [32]; [10]] in
   length ws = S (length toks) /\ forallb (forallb is_blank) ws = true /\ forallb stok2_ok toks = true /\
-  sep2_ok ws toks = true /\ no_exp toks = true /\
+  sep2_ok ws toks = true /\ no_exp toks = true /\ ctx_ok false toks = true /\
   map (fun t => (tstr t, tline t, tcol t)) (lex (render2 ws toks)) =
-    [([97], 1, 1); ([60; 61], 1, 3); ([98], 1, 5); ([38; 38], 2, 2); ([33], 2, 5); ([99], 2, 6); ([45; 62], 2, 7); ([100], 2, 9); ([59], 2, 10)].
+    [([97], 1, 1); ([60; 61], 1, 3); ([98], 1, 5); ([38; 38], 2, 2); ([33], 2, 5); ([99], 2, 6); ([45; 62], 2, 7); ([100], 2, 9);
+     ([60; 60], 2, 10); ([49], 2, 12); ([59], 2, 13); ([105], 3, 1); ([43; 43], 3, 2); ([59], 3, 5)].
 Proof. vm_compute. repeat split; reflexivity. Qed.
 
 Theorem C05_lex_munch_needs_sep_refuted :
@@ -86,3 +91,24 @@ Theorem C05_lex_munch_needs_sep_refuted :
                   map tstr (lex (render2 ws toks)) <> map stok2_str toks.
 Proof. exact lex_munch_needs_sep. Qed.
 Print Assumptions C05_lex_munch_needs_sep_refuted.
+
+(* reordering: putting an independent, balanced top-level definition `ins` in front of a definition `d` changes d's ids
+   only by the bijection `shift`: ids that existed before both definitions stay, d's own ids move up by the number of ids
+   `ins` takes. (Swapping two adjacent independent definitions = this statement for each of the two.) Independent: d
+   mentions no name that ins declares at top level. d's lookups are plain local lookups (no `::x`, no `type name (` site). *)
+Theorem C05_reorder_invariant : forall pre ins d,
+  bal 0 pre = true -> bal 0 ins = true -> indep ins d = true -> forallb simple_op d = true ->
+  let s1 := fst (vm_run vm0 pre) in
+  let s2 := fst (vm_run vm0 (pre ++ ins)) in
+  snd (vm_run s2 d) = shift_outs (next s1) (count_new ins) d (snd (vm_run s1 d)).
+Proof. exact reorder_invariant. Qed.
+Print Assumptions C05_reorder_invariant.
+
+Example C05_reorder_invariant_inhabited :
+  let pre := [Add [103] true] in                                                      (* int g; *)
+  let ins := [Add [104] true; Enter; Add [120] false; Use [120] false false; Use [103] false false; Leave] in   (* h, x *)
+  let d := [Add [102] true; Enter; Add [120] false; Use [120] false false; Use [103] false false; Leave] in     (* f, x *)
+  bal 0 pre = true /\ bal 0 ins = true /\ indep ins d = true /\ forallb simple_op d = true /\
+  snd (vm_run (fst (vm_run vm0 pre)) d) = [2; 0; 3; 3; 1; 1] /\
+  snd (vm_run (fst (vm_run vm0 (pre ++ ins))) d) = [4; 0; 5; 5; 1; 1].
+Proof. vm_compute. repeat split; reflexivity. Qed.
